@@ -117,6 +117,9 @@ def _perturb(rnd, spec):
         else:
             s["dims"] = s["dims"] + [3]
             s["increase"] = s["increase"] + [True]
+    for key, dflt in (("spacing", mg.SPACING), ("origin", mg.ORIGIN)):
+        if key in s and len(s[key]) < len(s["dims"]):
+            s[key] = tuple(s[key]) + tuple(dflt[len(s[key]):len(s["dims"])])
     s.pop("uniform_axes", None)
     return s, how
 
